@@ -30,11 +30,12 @@ EmptyS == [time |-> [x \in Node |-> NoT], E |-> {}, tid |-> [x \in Node |-> None
            cust |-> [x \in Node |-> None], pos |-> [x \in Node |-> NoPos],
            area |-> [x \in Node |-> -1], iou |-> [e \in Node \X Node |-> NoIoU],
            seg |-> [q \in Pix |-> 0], act |-> DefaultAct, reg |-> DefaultReg,
+           shp |-> [k \in ShapeKeys |-> [x \in Node |-> NoShape]], ecust |-> [e \in Node \X Node |-> None],
            U |-> <<>>, R |-> <<>>]
 
 \* the "tracks state" of C01/C02: nodes, edges, registered features, segmentation
 TS(s) == [time |-> s.time, E |-> s.E, tid |-> s.tid, lid |-> s.lid, cust |-> IF "cust" \in s.reg THEN s.cust ELSE <<>>,
-          pos |-> s.pos, area |-> s.area, iou |-> s.iou, seg |-> s.seg]
+          pos |-> s.pos, area |-> s.area, iou |-> s.iou, seg |-> s.seg, shp |-> s.shp, ecust |-> s.ecust]
 
 Init == S = EmptyS /\ tl = <<TS(EmptyS)>> /\ cur = 1 /\ n = 0
 
